@@ -32,6 +32,11 @@ def ret_decl(kind, T, scalar, expr):
         return (S.ctype, 'static_cast<%s>(%s)' % (S.ctype, expr)) if scalar else ('avel::%s::primitive' % S.name, 'avel::decay(avel::%s(%s))' % (S.name, expr))
     if kind == 'm':
         return ('bool', 'static_cast<bool>(%s)' % expr) if scalar else ('avel::%s::primitive' % T.mask, 'avel::decay(avel::%s(%s))' % (T.mask, expr))
+    if kind.startswith('V:'):
+        return 'avel::%s::primitive' % kind[2:], 'avel::decay(avel::%s(%s))' % (kind[2:], expr)
+    if kind.startswith('M:'):
+        mk = 'mask' + kind[5:]
+        return 'avel::%s::primitive' % mk, 'avel::decay(avel::%s(%s))' % (mk, expr)
     if kind == 's':
         return T.ctype, expr
     if kind == 'b':
@@ -41,7 +46,7 @@ def ret_decl(kind, T, scalar, expr):
     raise Exception(kind)
 
 
-def wrappers_for(cfg, props, tier, types=None, scalars=True, only_ops=None):
+def wrappers_for(cfg, props, tier, types=None, scalars=True, only_ops=None, scalars_only=False):
     """-> list of dict(name, line, op, type, scalar, K) for every wrapper relevant to the given properties"""
     out = []
     props = set(props)
@@ -50,7 +55,9 @@ def wrappers_for(cfg, props, tier, types=None, scalars=True, only_ops=None):
             continue
         if only_ops and o.name not in only_ops:
             continue
-        for T in avtypes.ALL_TYPES:
+        if o.tier == 'thorough' and tier != 'thorough':
+            continue
+        for T in (avtypes.ALL_TYPES if o.expr is not None and not scalars_only else []):
             if T.kind not in o.cls:
                 continue
             if types and T.name not in types:
@@ -58,6 +65,10 @@ def wrappers_for(cfg, props, tier, types=None, scalars=True, only_ops=None):
             if not avtypes.available(T, cfg.macros):
                 continue
             if o.widths and not o.widths(T):
+                continue
+            if o.only_types and T.name not in o.only_types:
+                continue
+            if o.dst and not avtypes.available(avtypes.BY_NAME[o.dst], cfg.macros):
                 continue
             ks = o.consts(T, tier) if o.consts else [None]
             for K in ks:
